@@ -246,6 +246,15 @@ impl<'a> Cursor<'a> {
                     '\\' => {
                         state = State::StringLiteralBackslash;
                     }
+                    // A line terminator is not allowed as the first character either
+                    curr if is_line_terminator(curr) => {
+                        self.add_err(Error::with_loc(
+                            "unexpected line terminator",
+                            "".to_string(),
+                            0,
+                        ));
+                        state = State::StringLiteral;
+                    }
                     _ => {
                         state = State::StringLiteral;
 
